@@ -19,7 +19,8 @@ REPO = "/repo"
 
 
 def run_one(patch, checks, tier="quick", seed="1", verbose=True):
-    scratch = "/var/tmp/goodwe_mut_%d_%d" % (os.getpid(), int(time.time() * 1000) % 100000)
+    import threading
+    scratch = "/var/tmp/goodwe_mut_%d_%d_%d" % (os.getpid(), threading.get_ident() % 100000, int(time.time() * 1000) % 100000)
     shutil.rmtree(scratch, ignore_errors=True)
     shutil.copytree(REPO, scratch, ignore=shutil.ignore_patterns(".git", "__pycache__", ".pytest_cache"))
     res = {"patch": patch, "checks": {}}
@@ -64,22 +65,33 @@ def main():
         i = args.index("--tier")
         tier = args[i + 1]
         del args[i:i + 2]
+    seed, jobs, out = "1", 1, os.path.join(VERIF, "mutants", "RESULTS.json")
+    for opt in ("--seed", "--jobs", "--out"):
+        if opt in args:
+            i = args.index(opt)
+            val = args[i + 1]
+            del args[i:i + 2]
+            if opt == "--seed":
+                seed = val
+            elif opt == "--jobs":
+                jobs = int(val)
+            else:
+                out = val
     if args and args[0] == "--all":
         with open(os.path.join(VERIF, "mutants", "INDEX.json")) as f:
             index = json.load(f)
         only = args[1:]
-        results = []
-        for e in index["mutants"]:
-            if only and not any(o in e["patch"] or o in e["checks"] for o in only):
-                continue
-            results.append(run_one(os.path.join(VERIF, e["patch"]), e["checks"], tier))
+        todo = [e for e in index["mutants"] if not only or any(o in e["patch"] or o in e["checks"] for o in only)]
+        from concurrent.futures import ThreadPoolExecutor
+        with ThreadPoolExecutor(max_workers=jobs) as ex:
+            results = list(ex.map(lambda e: run_one(os.path.join(VERIF, e["patch"]), e["checks"], tier, seed), todo))
         missed = [r for r in results if any(v["rc"] != 1 for v in r["checks"].values()) or not r.get("repo_tests_pass")]
-        print("%d mutants, %d not detected / not valid" % (len(results), len(missed)))
-        with open(os.path.join(VERIF, "mutants", "RESULTS.json"), "w") as f:
+        print("%d mutants, %d not detected / not valid (seed %s)" % (len(results), len(missed), seed))
+        with open(out, "w") as f:
             json.dump(results, f, indent=1)
         return 1 if missed else 0
     patch, checks = args[0], args[1:]
-    r = run_one(patch, checks, tier)
+    r = run_one(patch, checks, tier, seed)
     return 0 if all(v["rc"] == 1 for v in r["checks"].values()) else 1
 
 
